@@ -149,6 +149,15 @@ fn row_oracle(ctx: &mut Ctx, t: &Track, all: &[Track]) {
     if t.is_open() && t.distance_mile().is_some() {
         ctx.violation("c14/open-distance", "an open configuration reports a lap distance", &input, "None", &format!("{:?}", t.distance_mile()));
     }
+    // … in either unit: the kilometre accessor has a distance exactly when the mile accessor has one, and it is that distance
+    match (t.distance_mile(), t.distance_km()) {
+        (None, None) => {},
+        (Some(mi), Some(km)) if ((km / mi) - 1.60934).abs() < 1e-3 => {},
+        (mi, km) => {
+            let sig = if t.is_open() { "c14/open-distance" } else { "c14/distance-units" };
+            ctx.violation(sig, "the lap distance in kilometres disagrees with the one in miles (present for one, absent for the other, or not the same distance)", &input, &format!("{:?} mi", mi), &format!("{:?} km", km));
+        },
+    }
     for u in all {
         if u.code().as_bytes()[..2] == code.as_bytes()[..2] && u.license() != t.license() {
             ctx.violation("c14/area-licence", "two configurations of one track area require different licences", &input, &format!("{}", t.license()), &format!("{} has {}", u.code(), u.license()));
